@@ -122,11 +122,38 @@ def scenario(task):
         og = adj.g_prod(t, y_aug, v)
         if not og.requires_grad:
             notes.append('g_prod: not differentiable with grad enabled')
+    res = []
+    # "remains differentiable when enabled": with gradients enabled the derivative of <w, field> wrt the augmented state and
+    # every parameter, as computed by autograd through the field's own nested graph, equals the symbolic derivative of the
+    # field (the values alone do not show a graph that was cut inside)
+    from .. import e1 as _e1
+    Zd = _e1.Z()
+    with torch.enable_grad():
+        ya = SymT(y_aug.elem.clone(), y_aug.sym.copy()).requires_grad_(True)
+        fields = [('f', lambda: adj.f(t, ya)), ('g_prod', lambda: adj.g_prod(t, ya, v)), ('f_and_g_prod[0]', lambda: adj.f_and_g_prod(t, ya, v)[0])]
+        if nt == 'diagonal':
+            fields.append(('gdg', lambda: adj.g_prod_and_gdg_prod(t, ya, v, v2)[1]))
+        for nm, fn in fields:
+            o = fn()
+            w_ = mk('dw_' + nm.replace('[', '').replace(']', ''), tuple(o.shape), values=0.3 + 0.07 * np.arange(o.numel()).reshape(tuple(o.shape)))
+            lo = (o * w_).sum()
+            gs = torch.autograd.grad(lo, [ya] + params, allow_unused=True)
+            lnode = lo.sym.reshape(-1)[0]
+            nd = B * d * 2          # derivative wrt (y, adj_y); the parameter slots of y_aug only enter linearly
+            for tn, tensor, g_ in zip(['y_aug'] + [f'param{i}' for i in range(len(params))], [ya] + params, gs):
+                names_ = list(tensor.sym.reshape(-1))
+                if tn == 'y_aug':
+                    names_ = names_[:nd]
+                for k, vn in enumerate(names_):
+                    want = dag.diff(lnode, vn.args[0])
+                    got = dag.ZERO if g_ is None else g_.sym.reshape(-1)[k]
+                    r, model = Zd.equal(got, want)
+                    if r != 'unsat':
+                        res.append((f'd{nm}/d{tn}[{k}]', r, model)); break
     zv = {}
     zenv = lambda n_: zv.setdefault(n_, z3.Real(n_))
     memo = {}
-    res = []
-    solver_s = 0.0
+    solver_s = Zd.solver_s
     pairs = [('f', out['f']), ('g_prod', out['g_prod'])] + ([('gdg', out['gdg'])] if 'gdg' in out else [])
     for which, o in pairs:
         want = oracle(st, nt, sde, params, y, a, t, v, v2, B, d, mm, which)
@@ -249,6 +276,35 @@ def replay(data):
         bad = o.requires_grad or not o2.requires_grad
         print('replay C11 graph discipline:', 'violated' if bad else 'ok')
         return bool(bad)
+    if '/d' in r['which']:
+        # derivative of a field with gradients enabled: autograd through the field's own graph vs central differences of
+        # the field's no-grad values, in the augmented state and in every parameter
+        nm = r['which'].split('/d')[0][1:]
+        call = {'f': lambda ya: adj.f(t, ya), 'g_prod': lambda ya: adj.g_prod(t, ya, v), 'f_and_g_prod0': lambda ya: adj.f_and_g_prod(t, ya, v)[0],
+                'f_and_g_prod[0]': lambda ya: adj.f_and_g_prod(t, ya, v)[0], 'gdg': lambda ya: adj.g_prod_and_gdg_prod(t, ya, v, v2)[1]}[nm]
+        with torch.enable_grad():
+            ya = y_aug.detach().clone().requires_grad_(True)
+            o = call(ya)
+            w_ = 0.3 + 0.07 * torch.arange(o.numel(), dtype=o.dtype).reshape(o.shape)
+            gs = torch.autograd.grad((o * w_).sum(), [ya] + params, allow_unused=True)
+        worst = 0.0
+        eps = 1e-6
+        nd = B * d * 2
+        for tensor, g_ in zip([y_aug] + params, gs):
+            flat = tensor.data.reshape(-1)
+            for k in range(min(flat.numel(), nd if tensor is y_aug else flat.numel())):
+                old_ = float(flat[k])
+                vals = []
+                for sgn in (1, -1):
+                    flat[k] = old_ + sgn * eps
+                    with torch.no_grad():
+                        vals.append(float((call(y_aug.detach().clone()) * w_).sum()))
+                flat[k] = old_
+                fd = (vals[0] - vals[1]) / (2 * eps)
+                got_ = 0.0 if g_ is None else float(g_.reshape(-1)[k])
+                worst = max(worst, abs(fd - got_) / max(1.0, abs(fd)))
+        print('replay C11: max relative |autograd derivative of the field - central difference| =', worst)
+        return worst > 1e-5
     # oracle evaluated numerically through the symbolic trace at the same point
     mk2, sde2, fsde2, params2, adj2, y_aug2, t2, vv, vv2, y2, a2, _ = build(st, nt, d, m, B, symbolic=True, env=env)
     which = r['which'].split('[')[0]
